@@ -1,5 +1,6 @@
 import AdaVerif.Lemmas.ParseInv
 import AdaVerif.Lemmas.Guard
+import AdaVerif.Lemmas.AggSetters
 /-
 C03 — Setters implement the Standard's API setters and fail atomically.
 
@@ -104,6 +105,31 @@ theorem setters_keep_invariants (idna : Idna) (u : Url) (op : Op) (v : Bytes) (h
   · exact recinv_pathname u v h
   · exact recinv_search u v h
   · exact recinv_hash u v h
+
+/-! ### end to end for the single-buffer representation (component setters)
+
+`Model/AggSetters.lean` transcribes `url_aggregator::set_username / set_password / set_search / set_hash`
+(precondition, percent-encoding, in-place editor, size check against the limit, roll-back) on top of
+the editor layer of C07.  For every record satisfying the invariants of C19, every value and every
+limit: the C++ setter model applied to the record's buffer yields the buffer of the Standard's setter
+result when it fits the limit - and otherwise leaves the buffer as it was and reports failure. -/
+
+open AdaVerif.Model.Agg AdaVerif.Lemmas.AggL in
+theorem aggregator_setters_end_to_end (L : Nat) (u : Url) (v : Bytes) (hinv : RecInv u = true) (hna : TailNoAt (ofUrl u)) :
+    setUsernameM L (u.scheme == bFile) (layout (ofUrl u)) v =
+      (if u.cannotHaveUsernamePasswordPort then (layout (ofUrl u), false)
+       else if (layout (ofUrl (setUsername u v))).buf.length ≤ L then (layout (ofUrl (setUsername u v)), true)
+       else (layout (ofUrl u), false)) ∧
+    setPasswordM L (u.scheme == bFile) (layout (ofUrl u)) v =
+      (if u.cannotHaveUsernamePasswordPort then (layout (ofUrl u), false)
+       else if (layout (ofUrl (setPassword u v))).buf.length ≤ L then (layout (ofUrl (setPassword u v)), true)
+       else (layout (ofUrl u), false)) ∧
+    (v ≠ [] → setSearchM L u.isSpecial (layout (ofUrl u)) v =
+      if (layout (ofUrl (setSearch u v))).buf.length ≤ L then layout (ofUrl (setSearch u v)) else layout (ofUrl u)) ∧
+    (v ≠ [] → setHashM L (layout (ofUrl u)) v =
+      if (layout (ofUrl (setHash u v))).buf.length ≤ L then layout (ofUrl (setHash u v)) else layout (ofUrl u)) :=
+  ⟨setUsername_end_to_end L u v (credOk_of_recInv u hinv) hna, setPassword_end_to_end L u v (credOk_of_recInv u hinv) hna,
+   setSearch_end_to_end L u v, setHash_end_to_end L u v⟩
 
 /-! ### non-vacuity -/
 def noIdna : Idna := ⟨fun _ => none⟩
